@@ -372,5 +372,11 @@ func (d Decimal) ToProtoDecimal() *dtpb.Decimal {
 
 // Round rounds a Decimal at the provided precision.
 func (d Decimal) Round(precision int32) Decimal {
+	// A value with no more than `precision` fractional digits is already rounded. The
+	// library would still pad its coefficient with zeros up to that precision, i.e. multiply
+	// it by a power of ten as large as the precision: round(2147483647) does not finish.
+	if int64(decimal.Decimal(d).Exponent()) >= -int64(precision) {
+		return d
+	}
 	return Decimal(decimal.Decimal(d).Round(precision))
 }
